@@ -3,7 +3,7 @@
 Written from the property statement and the consensus definition, not from the
 repository code.
 """
-from pyvc.dsl import spec, Int, Bytes
+from pyvc.dsl import spec, Int, Bytes, Bool
 
 
 @spec
@@ -69,6 +69,12 @@ def pow_accepts(h, c, limit):
     """consensus CheckProofOfWork: h is the hash as an integer"""
     return (not compact_negative(c) and not compact_overflow(c) and compact_value(c) != 0
             and compact_value(c) <= limit and h <= compact_value(c))
+
+
+@spec(opaque=True, sig=[Int, Int, Int], ret=Bool)
+def pow_rule(h, c, limit):
+    """pow_accepts as one atom for callers (unfolded where CheckProofOfWork itself is verified)"""
+    return pow_accepts(h, c, limit)
 
 
 POW_LIMITS = {
